@@ -81,6 +81,17 @@ def l2Reseed : List (String × String) :=
   [("#0", "algorithm"), ("#1", "l1_key"), ("#2", "KDS_SERVICE_LABEL"), ("#3", "compute_kdf_context(rk.root_key_identifier, rk.l0, l1, l2)"), ("#4", "64"), ("calls", "3")]
 def l2WalkL2 : List (String × String) :=
   [("#0", "algorithm"), ("#1", "l2_key"), ("#2", "KDS_SERVICE_LABEL"), ("#3", "compute_kdf_context(rk.root_key_identifier, rk.l0, l1, l2)"), ("#4", "64"), ("calls", "3")]
+/-- `KeyCache._get_key`: the seed envelope built from a loaded root key -/
+def rootEnvelope : List (String × String) :=
+  [("domain_name", "''"), ("flags", "2"), ("forest_name", "''"), ("kdf_algorithm", "root_key.kdf_algorithm"), ("kdf_parameters", "root_key.kdf_parameters"),
+   ("l0", "l0"), ("l1", "31"), ("l1_key", "l1_seed"), ("l2", "31"), ("l2_key", "b''"),
+   ("local:l1_seed", "compute_l1_key(target_sd, root_key_id, l0, root_key.key, KDFParameters.unpack(root_key.kdf_parameters).hash_algorithm)"),
+   ("local:root_key", "self._root_keys.get(root_key_id, None)"), ("private_key_length", "root_key.private_key_length"),
+   ("public_key_length", "root_key.public_key_length"), ("root_key_identifier", "root_key_id"), ("secret_algorithm", "root_key.secret_algorithm"),
+   ("secret_parameters", "root_key.secret_parameters or b''"), ("version", "root_key.version")]
+def rootL1 : List (String × String) :=
+  [("#0", "target_sd"), ("#1", "root_key_id"), ("#2", "l0"), ("#3", "root_key.key"), ("#4", "KDFParameters.unpack(root_key.kdf_parameters).hash_algorithm"),
+   ("local:root_key", "self._root_keys.get(root_key_id, None)")]
 end CryptoCalls
 
 end DpapiNg
